@@ -17,9 +17,10 @@ Definition gmodel := list nsite.      (* env = arguments ++ values of the earlie
 
 (** dual numbers *)
 Definition dual := (Q * Q)%type.
-Definition dadd (a b : dual) : dual := (fst a + fst b, snd a + snd b).
-Definition dsub (a b : dual) : dual := (fst a - fst b, snd a - snd b).
-Definition dmul (a b : dual) : dual := (fst a * fst b, fst a * snd b + snd a * fst b).
+(** results are kept in lowest terms ([Qred q == q]) so that evaluation stays small *)
+Definition dadd (a b : dual) : dual := (Qred (fst a + fst b), Qred (snd a + snd b)).
+Definition dsub (a b : dual) : dual := (Qred (fst a - fst b), Qred (snd a - snd b)).
+Definition dmul (a b : dual) : dual := (Qred (fst a * fst b), Qred (fst a * snd b + snd a * fst b)).
 Definition dk (q : Q) : dual := (q, 0).
 
 Fixpoint deval (e : qexpr) (env : list dual) : dual :=
@@ -61,7 +62,7 @@ Fixpoint put (xs : list Q) (sel : list nat) (vs : list Q) : list Q :=
   end.
 Definition get (xs : list Q) (sel : list nat) : list Q := map (fun k => nth k xs 0) sel.
 
-Definition qsum (l : list Q) : Q := fold_right Qplus 0 l.
+Definition qsum (l : list Q) : Q := fold_right (fun a b => Qred (a + b)) 0 l.
 Definition map2 (f : Q -> Q -> Q) (a b : list Q) : list Q := map (fun p => f (fst p) (snd p)) (combine a b).
 Definition map3 (f : Q -> Q -> Q -> Q) (a b c : list Q) : list Q :=
   map (fun p => f (fst (fst p)) (snd (fst p)) (snd p)) (combine (combine a b) c).
@@ -72,7 +73,7 @@ Definition qmin0 (x : Q) : Q := if Qle_bool x 0 then x else 0.
 Definition accepts (logu log_alpha : Q) : bool := negb (Qle_bool (qmin0 log_alpha) logu).
 
 (** unnormalised Gaussian log density (the constant -ln(sigma sqrt(2 pi)) is dropped) *)
-Definition nlp (x mean sig : Q) : Q := - (x - mean) * (x - mean) / (2 * sig * sig).
+Definition nlp (x mean sig : Q) : Q := Qred (- (x - mean) * (x - mean) / (2 * sig * sig)).
 
 Record mala_out := { m_prop : list Q; m_log_alpha : Q; m_accept : bool; m_final : list Q }.
 
@@ -80,12 +81,12 @@ Definition mala (m : gmodel) (args xs : list Q) (sel : list nat) (eps : Q) (nois
   : mala_out :=
   let cur := get xs sel in
   let g := grad m args xs sel in
-  let prop := map3 (fun x gk xi => x + (eps * eps / 2) * gk + eps * xi) cur g noise in
+  let prop := map3 (fun x gk xi => Qred (x + (eps * eps / 2) * gk + eps * xi)) cur g noise in
   let xs' := put xs sel prop in
   let fwd := qsum (map3 (fun x p gk => nlp p (x + (eps * eps / 2) * gk) eps) cur prop g) in
   let g' := grad m args xs' sel in
   let bwd := qsum (map3 (fun p x gk => nlp x (p + (eps * eps / 2) * gk) eps) prop cur g') in
-  let la := (logp m args xs' - logp m args xs) + bwd - fwd in
+  let la := Qred ((logp m args xs' - logp m args xs) + bwd - fwd) in
   let acc := accepts logu la in
   {| m_prop := prop; m_log_alpha := la; m_accept := acc; m_final := if acc then xs' else xs |}.
 
@@ -93,10 +94,10 @@ Definition mala (m : gmodel) (args xs : list Q) (sel : list nat) (eps : Q) (nois
 Definition leapfrog (m : gmodel) (args xs : list Q) (sel : list nat) (eps : Q)
            (st : list Q * list Q * list Q) : list Q * list Q * list Q :=
   let '(pos, mom, g) := st in
-  let mom1 := map2 (fun p gk => p + (eps / 2) * gk) mom g in
-  let pos1 := map2 (fun x p => x + eps * p) pos mom1 in
+  let mom1 := map2 (fun p gk => Qred (p + (eps / 2) * gk)) mom g in
+  let pos1 := map2 (fun x p => Qred (x + eps * p)) pos mom1 in
   let g1 := grad m args (put xs sel pos1) sel in
-  let mom2 := map2 (fun p gk => p + (eps / 2) * gk) mom1 g1 in
+  let mom2 := map2 (fun p gk => Qred (p + (eps / 2) * gk)) mom1 g1 in
   (pos1, mom2, g1).
 
 Fixpoint iter {A} (n : nat) (f : A -> A) (a : A) : A :=
@@ -109,7 +110,7 @@ Definition hmc (m : gmodel) (args xs : list Q) (sel : list nat) (eps : Q) (nstep
   let '(pos, mom, _) := iter nsteps (leapfrog m args xs sel eps) (cur, mom0, g0) in
   let xs' := put xs sel pos in
   let kin (p : list Q) := qsum (map (fun v => nlp v 0 1) p) in
-  let la := (logp m args xs' + kin (map Qopp mom)) - (logp m args xs + kin mom0) in
+  let la := Qred ((logp m args xs' + kin (map Qopp mom)) - (logp m args xs + kin mom0)) in
   let acc := accepts logu la in
   {| m_prop := pos; m_log_alpha := la; m_accept := acc; m_final := if acc then xs' else xs |}.
 
